@@ -157,6 +157,10 @@ func main() {
 		os.Exit(1)
 	}
 	rendered := strings.Replace(a.render(), "\nend Generated\n", renderEffects(files)+renderLockShape(a.fset, files)+syncS+codec+"\nend Generated\n", 1)
+	if err := os.WriteFile(filepath.Join(filepath.Dir(*out), "Sorting.lean"), []byte(renderTranslation(*repo)), 0o644); err != nil {
+		fmt.Fprintln(os.Stderr, err)
+		os.Exit(1)
+	}
 	if err := os.WriteFile(*out, []byte(rendered), 0o644); err != nil {
 		fmt.Fprintln(os.Stderr, err)
 		os.Exit(1)
